@@ -17,6 +17,11 @@
              or empty: never a cache that claims coverage of a pass that did not complete
        That a clean node state gives the fresh answer is the L1 semantics itself with caching off;
        with caching on it is C05's (partial) statement.
+         c04_conj_any_state       at the stateful layer (L2 machine, `Machine.lean`), caching disabled:
+             a conjunctive query evaluated from ANY node state - whatever earlier evaluations left
+             behind - returns exactly the rows of the L1 evaluation, in order (no duplicate check is
+             reached in this fragment; partial: disjunctions, where duplicate tracking acts, are
+             covered by the correspondence of the machine with the implementation only).
    (3) the user's collections and objects: the `World` and the raw domains are parameters of the
        model, not part of any state: no operation can change them (frame property by construction;
        on the implementation the harness snapshots them).
@@ -24,6 +29,7 @@
 import EqlModel.Props.C07
 import EqlModel.SpecExec
 import EqlModel.Eval
+import EqlModel.Lemmas.MachineConj
 
 namespace Eql
 variable {V : Type} [BEq V] [LawfulBEq V]
@@ -125,5 +131,15 @@ theorem c04_lifecycle_clean : ∀ (hist : List (Bool × Ending)),
   exact gen hist {} ⟨rfl, by simp⟩
 
 end Lifecycle
+
+/-- **Node state, L2, conjunctive fragment.**  With the result cache disabled, the stateful evaluator
+    started from two arbitrary node states returns the same rows - those of the L1 evaluation. -/
+theorem c04_conj_any_state_partial (W : World V) (D : VarId → List V) (P : Machine.Params V)
+    (q : Query V) (c : Cond V) (hq : q.cond = some c) (hc : Machine.Cond.conj c = true)
+    (hf : c.noFlat = true) (st₁ st₂ : Machine.St) :
+    (Machine.rowsM W D P false q st₁).1 = (Machine.rowsM W D P false q st₂).1 ∧
+    (Machine.rowsM W D P false q st₁).1 = rows W D q := by
+  rw [Machine.rowsM_conj_off W D P q c hq hc hf st₁, Machine.rowsM_conj_off W D P q c hq hc hf st₂]
+  exact ⟨rfl, rfl⟩
 
 end Eql
